@@ -24,7 +24,8 @@ from mc import tunables
 CMD_TIMEOUT = tunables.ezsp_cmd_timeout()   # "the command timeout": bellows' tunable, not fixed by the property
 EPS = 1e-9
 PRIO = {"setExtendedTimeout": -1, "getEui64": 0, "getNodeId": 0, "getValue": 999, "readCounters": 999,
-        "getConfigurationValue": 0, "nop": 999, "setSourceRoute": -1}
+        "getConfigurationValue": 0, "nop": 999, "setSourceRoute": -1, "sendUnicast": -1, "sendMulticast": -1, "sendBroadcast": -1,
+        "readAndClearCounters": 999}
 
 
 def tagged_values(rx, tag):
@@ -579,6 +580,9 @@ def param_list(tier):
                       ["getValue", "getNodeId", "setExtendedTimeout", "getEui64", "readCounters"]]
         for o in orders:
             out.append({"version": v, "callers": o[:4] if tier == "quick" else o, "late": [3] if tier == "quick" else [4]})
+        # first-come first-served INSIDE the packet-send class: different packet-send commands queued behind one in flight
+        out.append({"version": v, "callers": ["getEui64", "sendMulticast", "sendUnicast", "setSourceRoute", "sendBroadcast"][:4 if tier == "quick" else 5],
+                    "late": [3] if tier == "quick" else [4]})
     return out
 
 
